@@ -31,7 +31,7 @@ FACTORY = 'pyv.checks.c05:Session'
 NAME = b'com.example.N'
 UNOWNED = b'com.example.Unowned'
 PEERS = ['A', 'B', 'C']
-PAD = b'p' * 3000
+PAD = b'p' * 12000
 
 
 class Session(BusSession):
@@ -40,10 +40,14 @@ class Session(BusSession):
     def __init__(self, params):
         BusSession.__init__(self, params)
         self.reg = N.Registry()
+        # B first: the bus-side send buffer is shrunk while B's is the only connection, so that only B backs up
+        self.connect_slot('B')
+        self.bus.h.cmd('SRVSOCKBUF 4608')
         for l in ('E', 'Z', 'D'):
             self.connect_slot(l)
         for l in PEERS:
-            self.connect_slot(l)
+            if l != 'B':
+                self.connect_slot(l)
         self.method('E', 'AddMatch', [R.S(b"eavesdrop='true'")])
         self.method('Z', 'AddMatch', [R.S(b"type='signal'")])
         self.method('Z', 'AddMatch', [R.S(b"type='method_call'")])
@@ -56,7 +60,6 @@ class Session(BusSession):
         # small socket buffers on both ends so that a stalled B really backs up inside the bus (the bus-side send buffer
         # is what limits an AF_UNIX stream), where max_outgoing_bytes (see config) then makes the bus refuse further sends
         self.bus.h.cmd('SOCKBUF %d 2048 2048' % self.slots['B'])
-        self.bus.h.cmd('SRVSOCKBUF 4608')
         self.answered = {}         # (label, serial) -> number of error replies received so far, over the whole history
         for l in list(self.inbox):
             self.take(l)
@@ -66,6 +69,24 @@ class Session(BusSession):
 
     def config(self):
         return B.make_config(limits={'max_outgoing_bytes': 3000})
+
+    def settle(self):
+        """B's buffers are tiny and the payloads large: the bus needs several write/read rounds to get one message across."""
+        quiet = 0
+        for _ in range(60):
+            self.bus.pump()
+            o = self.bus.recvall()
+            self._distribute(o)
+            if any(rv.raw for rv in o.values()):
+                quiet = 0
+            else:
+                quiet += 1
+                if quiet >= 2:
+                    break
+
+    def send(self, label, msg, fds=None):
+        BusSession.send(self, label, msg, fds)
+        self.settle()
 
     # ---- alphabet -------------------------------------------------------
     def send_ops(self, l):
@@ -209,20 +230,24 @@ class Session(BusSession):
                         maybe_err[(e['sender'], e['serial'])] += 1
             if e['code'] is not None:
                 rets[(e['codefor'], e['serial'])] = e['code']
-        # B stalled: its expected arrivals go to the backlog instead -- unless the bus refused the message because B's
-        # outgoing queue is over max_outgoing_bytes: then the sender has exactly one error and the message is never delivered
+        # A delivery may be REFUSED because the recipient's outgoing queue is over max_outgoing_bytes (B has tiny socket
+        # buffers, so this happens while it is stalled and also for the second of two large messages in one batch): then the
+        # sender has exactly one LimitsExceeded error for that serial and the message is never delivered.
+        for e in exps:
+            if e['tok'] is None or e.get('deliver') is None:
+                continue
+            refused = any(it[0] == 'err' and it[1] == e['serial'] and it[2].endswith(b'LimitsExceeded') for it in obs.get(e['sender'], []))
+            if refused:
+                self.hit('refused-queue-full')
+                maybe_err[(e['sender'], e['serial'])] += 1
+                if e['tok'] in want.get(e['deliver'], []):
+                    want[e['deliver']].remove(e['tok'])
+                if e['tok'] in want.get('E', []):
+                    want['E'].remove(e['tok'])
+                    want.setdefault('E?', []).append(e['tok'])
+        # B stalled: its expected arrivals go to the backlog instead
         if self.stalled and 'B' in want:
-            for tok in want.pop('B'):
-                e = next(x for x in exps if x['tok'] == tok)
-                refused = any(it[0] == 'err' and it[1] == e['serial'] and it[2].endswith(b'LimitsExceeded') for it in obs.get(e['sender'], []))
-                if refused:
-                    self.hit('refused-queue-full')
-                    maybe_err[(e['sender'], e['serial'])] += 1
-                    if 'E' in want and tok in want['E']:
-                        want['E'].remove(tok)
-                        want.setdefault('E?', []).append(tok)
-                else:
-                    self.backlog.append(tok)
+            self.backlog += want.pop('B')
         msgs_by_tok = {e['tok']: e for e in exps if e['tok'] is not None}
         for l, items in obs.items():
             got = [it[1] for it in items if it[0] == 'msg']
@@ -353,6 +378,7 @@ class Session(BusSession):
                 self.bus.send(self.slots[o[1]], R.encode_message(built[repr(o)][0]))
             self.bus.pump()
             self._distribute(self.bus.recvall())
+            self.settle()
             obs = self.observe()
             self.hit('batch')
             # one of the two processing orders must explain everything
